@@ -64,6 +64,16 @@ def check_definition(case):
     D = stft_ref.documented_dft_size(L, spec["pad"])
     x = make_signal(case["sig"])
     N = len(x)
+    if case.get("other"):
+        # another computer of the same class (different configuration) is built and used first
+        ospec = case["other"]
+        if not (gabor_degenerate(ospec["bank"], _thr()) or gammatone_degenerate(ospec["bank"], _thr())):
+            try:
+                oc = build_stft(ospec)
+                oc.compute_full(make_signal({"n": 3 * (ospec["L"] or 8), "kind": "noise", "seed": 11, "scale": 2.0}))
+                oc.compute_chunk(make_signal({"n": 5, "kind": "noise", "seed": 12, "scale": 2.0}))
+            except Exception:  # noqa - only the judged instance matters here
+                pass
     pr = case.get("prior")
     if pr:
         # the instance may have been used before (another utterance, whole or in chunks)
@@ -154,7 +164,8 @@ def _cases(draw, rates=(1000,), max_len=64):
     sig = draw(signal_specs(st.just(n)))
     prior = draw(st.one_of(st.none(), st.none(), st.fixed_dictionaries({
         "sig": signal_specs(st.integers(0, 3 * L)), "chunked": st.booleans()})))
-    return {"comp": comp, "sig": sig, "prior": prior, "config": draw(log_floor_configs())}
+    other = draw(st.one_of(st.none(), st.none(), st.none(), stft_specs(rates=rates, max_len=16)))
+    return {"comp": comp, "sig": sig, "prior": prior, "config": draw(log_floor_configs()), "other": other}
 
 
 @st.composite
